@@ -31,11 +31,12 @@ PROPS = {
         explanation='Replay/parse and the crash-prefix theorem are proved for all logs and all cut points; open/append/recover/checkpoint sequences on real files are bounded.',
     ),
     'C05': dict(
-        v=[], k=[], b=['c05_graph'],
+        v=['C05_adjacency'], k=[], b=['c05_graph'],
+        pairs={'C05_adjacency': ['bounded:c05_graph']},
         level='other',
-        technique='bounded native contract checks of GraphEngine (representation invariant + exact effect/frame after every operation of all short sequences, derived queries vs a spec over all_edges); the adjacency helpers are string/TensorData manipulations outside the Verus/Kani subset',
-        claim='BOUNDED: after every create/delete/update in all operation sequences of length <= 5 over <= 4 nodes (incl. self-loops, parallel and undirected edges, hubs above the parallel-deletion threshold) the graph is well-formed, the edge set changed exactly as specified, and neighbors/degree/traverse equal the spec computed from all_edges. The multi-thread clause is NOT covered.',
-        explanation='Bounded stand-in only. Sequential contracts; concurrency out of reach of this technique.',
+        technique='Verus: the adjacency bookkeeping statements of create_edge / delete_edge / delete_node (sequential and high-degree branch) extracted verbatim and proved against a ghost (list key, edge id) relation: create registers an edge exactly where the property demands, delete_edge removes it everywhere, each delete_node cleanup block removes it from every neighbour list, nothing else changes; add_edge_to_list proved to keep lists duplicate-free. Bounded native contract checks of GraphEngine (representation invariant + exact effect/frame after every operation of all short sequences, derived queries vs a spec over all_edges) cover the TensorData plumbing and whole operations',
+        claim='list registration / cleanup logic proved for all endpoints, directions and self-loops (Verus; list storage abstracted by a ghost relation, key constructor injective); BOUNDED: after every create/delete/update in all operation sequences of length <= 5 over <= 4 nodes (incl. self-loops, parallel and undirected edges, hubs at and above the parallel-deletion threshold) the graph is well-formed, the edge set changed exactly as specified, and neighbors/degree/traverse equal the spec computed from all_edges. The multi-thread clause is NOT covered.',
+        explanation='Adjacency logic proved; storage plumbing and whole operations bounded. Sequential contracts; concurrency out of reach of this technique.',
     ),
     'C08': dict(
         v=[], k=[], b=['c08_rollback'],
